@@ -389,7 +389,7 @@ def evalCondL (l : Local) (toks : List Tok) : Bool × Local :=
   | some _ => (false, l)
   | none =>
     match runExpand l.plat.tbl toks with
-    | .ok ts => match evaluate ts with
+    | .ok ts => match CbiVerif.Eval.evaluatePP ts with
       | .ok b => (b, l)
       | .error e => (false, l.fail e)
     | .error e => (false, l.fail e)
